@@ -22,6 +22,7 @@ static Raw<condition_variable> CV;
 static bool waiting[KN], finite_to[KN];      // protected by L: the thread has entered wait() / its timeout is finite
 static int wret[KN], werr[KN];
 static int n_waiting_at_notify, notified, notify_ret_nonnull;
+static bool was_waiting[KN];                 // snapshot taken by the notifier under the lock: who had entered wait() before the notification
 
 template<int ME> static inline __attribute__((always_inline)) void waiter()
 {
@@ -46,7 +47,7 @@ template<int ME> static inline __attribute__((always_inline)) void notifier()
     bool inside = nondet_bool();     // notify while holding the lock, or after releasing it
     L.v.lock();
     int nw = 0, ninf = 0;
-    for (int i = 0; i < KN; i++) { if (waiting[i]) { nw++; if (!finite_to[i]) ninf++; } }
+    for (int i = 0; i < KN; i++) { was_waiting[i] = waiting[i]; if (waiting[i]) { nw++; if (!finite_to[i]) ninf++; } }
     n_waiting_at_notify = nw;
     int woken;
 #ifdef NOTIFY_ALL
@@ -92,7 +93,13 @@ NOINL void world_final(uint32_t all_done, uint32_t stuck)
     }
     if (stuck) {
         // a waiter without deadline may legitimately stay blocked only if the notification came before it waited
-        CHECK(n_waiting_at_notify == 0 || notified < n_waiting_at_notify, "no lost notification: a waiter blocked for ever was not among those a notify_all/notify_one had to wake");
+        for (int i = 0; i < KN; i++) if (waiting[i] && K_is_blocked(i)) {
+#ifdef NOTIFY_ALL
+            CHECK(!was_waiting[i], "no lost notification: a waiter blocked for ever had not entered wait() when notify_all ran");
+#else
+            CHECK(!was_waiting[i] || (notified == 1 && n_waiting_at_notify >= 2), "no lost notification: a waiter blocked for ever had not entered wait() when notify_one ran, or notify_one woke another waiter");
+#endif
+        }
         WITNESS("a waiter that arrives after the only notification stays blocked");
     }
 }
